@@ -129,6 +129,15 @@ func runC07(k *eng.Check, tier string) {
 			k.Require("dangling-root-check", eng.Name(fn)+"#args", "the dangling check is applied to the new root with the caller's checker", ok, c.InstrPos(call.(ssa.Instruction)), "arguments are not (current, checker)")
 		}
 		checkDanglingHandled(k, fn)
+		// the root is checked (and remembered as present in the has-cache) only once the memtable that may hold it has been
+		// persisted: a later dangling-reference failure drops the memtable, and a root verified against it would stay cached
+		mAppend := eng.Static("(*store/nbs.tableSet).append")
+		noMT := eng.CondEdgesP(fn, func(v ssa.Value) bool { return isNilCompareOfField(v, nbsT+".memtable", token.NEQ) }, false)
+		emptyMT := eng.CondEdgesP(fn, func(v ssa.Value) bool {
+			b, ok := eng.IsCompare(v, token.GTR)
+			return ok && isConstInt(b.Y, 0) && eng.Mentions(b.X, eng.IsCall(eng.Static("(*store/nbs.memTable).count")))
+		}, false)
+		k.OnlyAfter("dangling-root-check", fn, "the new root is checked only after the memtable was persisted (or is nil/empty)", eng.CallSet(fn, eng.Static("(*store/nbs.NomsBlockStore).errorIfDangling")), 1, eng.UnionOf(k.OkCalls(fn, "append", mAppend), noMT, emptyMT))
 	}
 	if fn := k.Fn("(*store/nbs.NomsBlockStore).errorIfDangling"); fn != nil {
 		// success is reached only: root empty, or in the has-cache, or checker ok && nothing absent
